@@ -224,13 +224,14 @@ package types
 //@   ensures fail:  err != nil ==> tibc == old(tibc)
 //@
 //@ // pruning of one expired consensus state together with its header-index and root-index entries: only keys of this
-//@ // client are touched, and only by deletion (assumed: the raw index key read back from the root index is not tracked)
+//@ // client are touched, and only by deletion (the index key read back from the root index is a raw key of the client
+//@ // store in the model: that it is the header-index key written by update is not tracked)
 //@ func deleteConsensusStateAndIndexHeader(cdc, clientStore, height) (err)
 //@   props C18
 //@   modifies tibc
-//@   trusts frame:  forall k: key :: !inClient(k, clientOf(clientStore)) ==> tibc[k] == old(tibc)[k]
-//@   trusts only.deletes: forall k: key :: tibc[k] == old(tibc)[k] || !present(tibc[k])
-//@   trusts fail:   err != nil ==> tibc == old(tibc)
+//@   ensures frame:  forall k: key :: !inClient(k, clientOf(clientStore)) ==> tibc[k] == old(tibc)[k]
+//@   ensures only.deletes: forall k: key :: tibc[k] == old(tibc)[k] || !present(tibc[k])
+//@   ensures fail:   err != nil ==> tibc == old(tibc)
 //@
 //@ // RestrictChain (fork switch): rewrites the consensus states of the heights on the new branch; only consensus-state
 //@ // keys of this client are written. What it writes is NOT under contract here: the chain-consistency half of C18 is
@@ -238,7 +239,10 @@ package types
 //@ func (ClientState).RestrictChain(cdc, store, new) (err)
 //@   props C18
 //@   modifies tibc
-//@   trusts frame: forall k: key :: !(is_consState(k) && consState_0(k) == clientOf(store)) ==> tibc[k] == old(tibc)[k]
+//@   ensures frame: forall k: key :: !(is_consState(k) && consState_0(k) == clientOf(store)) ==> tibc[k] == old(tibc)[k]
+//@   loop #0 invariant frame: tibc == old(tibc)
+//@   loop #1 invariant frame: tibc == old(tibc)
+//@   loop #2 invariant frame: forall k: key :: !(is_consState(k) && consState_0(k) == clientOf(store)) ==> tibc[k] == old(tibc)[k]
 //@
 //@ // CheckHeaderAndUpdateState: accepted only if the consensus state of the latest header is readable and checkValidity
 //@ // accepts (the conditions of the statement); then the header is indexed, becomes the client's latest header and its
